@@ -547,8 +547,15 @@ inductive LitResult where
 
 def tailText : List Char := ['`', '`', ' ', 'i', 'n', 's', 't', 'e', 'a', 'd', '.']
 
+/-- `restructuredtext.parse_docstring` (commit ce72216): the `str.splitlines` boundaries that are
+not line ends for Python — U+001C–U+001E, U+0085, U+2028, U+2029 — are replaced by a blank before
+docutils sees the text -/
+def rstPreprocess (c : Char) : Char :=
+  let n := c.toNat
+  if (28 ≤ n ∧ n ≤ 30) ∨ n = 0x85 ∨ n = 0x2028 ∨ n = 0x2029 then ' ' else c
+
 def interpolatedLiteral (r' : List Char) : LitResult :=
-  let r2 := r'.map convertWs
+  let r2 := (r'.map rstPreprocess).map convertWs
   if r2.any isLineBreak then .broken
   else if !literalStartOk (r2 ++ tailText) then .nolit
   else match literalParse (r2 ++ tailText) with
